@@ -605,6 +605,16 @@ func (h H) taskTypestate(rule string) {
 	rrel := h.fn("raft:(*Raft).release")
 	ost := h.fn("raft:(*Raft).onSnapshotTaken")
 	h.C.Check(rule+" release-waits-snapshot", "(*Raft).release", len(h.P.CallsTo(rrel, ost)) == 1, h.fpos(rrel), "Raft.release must wait for a running snapshot and answer its task")
+	// ... on every path on which a snapshot is in progress (a select with a
+	// default case leaves a path around the wait: the task is never answered
+	// and the snapshot goroutine outlives Serve)
+	rfi2 := h.P.Info(rrel)
+	for k, r := range core.Returns(rrel) {
+		res := rfi2.MustCrossOrPass(r, func(a core.Atom) bool {
+			return a.Implies(core.MkAtom("Raft.snapTakenCh", "==", "nil"))
+		}, nil, func(in ssa.Instruction) bool { return h.P.IsCallTo(in, ost) })
+		h.C.Check(rule+" release-waits-snapshot", fmt.Sprintf("(*Raft).release return#%d", k+1), res.OK, h.pos(r), "Raft.release can return while a snapshot is in progress without waiting for it: "+res.Witness)
+	}
 	// task.reply closes done at most once
 	ts := h.simAll().Run(reply)
 	for _, t := range ts {
